@@ -1073,7 +1073,7 @@ def run_property(res, pid, tier, seed, theorems, modules, extra_targets, familie
     res.cov["model_vs_impl_disagreements"] = len(dis)
     res.cov["oracle_failures"] = len(ofail)
     res.cov["histogram"] = {"ops": op_histogram(cases), "steps_per_case": {str(k): sum(1 for c in cases if len(c["steps"]) == k) for k in range(1, 22)},
-                            "families": {f: sum(1 for c in cases if c.get("family") == f) for f in sorted({c.get("family", "witness") for c in cases})},
+                            "families": {f: sum(1 for c in cases if c.get("family", "witness") == f) for f in sorted({c.get("family", "witness") for c in cases})},
                             "accepted_steps": sum(sum(1 for b in o["res"] if b) for o in outs), "rejected_steps": sum(sum(1 for b in o["res"] if not b) for o in outs),
                             "prefix_experiments": sum(len(o["snap_eq"] or []) for o in outs),
                             "prefixes_where_restore_differs": sum(sum(1 for b in (o["snap_eq"] or []) if not b) for o in outs),
